@@ -195,14 +195,14 @@ class Scoped:
     only when their construct matches `keep` (a predicate on the construct string) and are filed under rule id `rid`;
     vacuity guards (`expect`, `min_instances`) of the borrowed module are not inherited, hard needs are."""
 
-    def __init__(self, ck, rid, keep):
-        self._ck, self._rid, self._keep = ck, rid, keep
+    def __init__(self, ck, rid, keep, rids=None):
+        self._ck, self._rid, self._keep, self._rids = ck, rid, keep, rids
         self.m, self.pid, self.extra = ck.m, ck.pid, {}
         self.kept = 0
 
     def ob(self, rid, node, ok, msg="", stmt=None, construct=None, nontrivial=True):
         c = construct if construct is not None else (self.m.construct(node) if node is not None else "<package>")
-        if not self._keep(c):
+        if not self._keep(c) or (self._rids is not None and rid not in self._rids):
             return bool(ok)
         self.kept += 1
         return self._ck.ob(self._rid, node, ok, msg, stmt if stmt is not None else node, construct, nontrivial)
